@@ -50,6 +50,20 @@ Theorem C20_alloc_partial : forall r n, handle r = HRun n -> n <= 1.
 Proof. exact handle_alloc_le_1. Qed.
 Print Assumptions C20_alloc_partial.
 
+(* what List / Range do with the client's limit, for every int64: limits 1 .. MaxInt64-1 stop the scan
+   after limit+1 results, everything else (0, negative, MaxInt64 whose +1 overflows) is unlimited; and no
+   request makes a scan reserve buffer space from the limit (the first attempt's buffer has capacity 0).
+   A change that sizes a buffer from the limit is outside this model: it is the request run with the
+   limits MaxInt64-1, 2^62, 2^33..2^44 (fixed corpus + generator) that catches it. *)
+Theorem C20_list_limit : forall l, (min_int64 <= l <= max_int64)%Z ->
+  list_limit l = if ((0 <? l)%Z && (l <? max_int64)%Z)%bool then Limited (l + 1)%Z else Unlimited.
+Proof. exact list_limit_spec. Qed.
+Print Assumptions C20_list_limit.
+
+Theorem C20_scan_prealloc : forall l, scan_prealloc (list_limit l) 0 = 0.
+Proof. exact scan_prealloc_zero. Qed.
+Print Assumptions C20_scan_prealloc.
+
 (* ---------- non-vacuity ---------- *)
 
 Definition ex_m : str := [109].            (* "m" *)
@@ -90,6 +104,11 @@ Proof. vm_compute. reflexivity. Qed.
 (* the handler guard is what keeps the nil-Kv dereference unreachable *)
 Example C20_unguarded_update_panics : handle_unguarded_update false = HPanic.
 Proof. vm_compute. reflexivity. Qed.
+Example C20_limit_examples :
+  list_limit max_int64 = Unlimited /\ list_limit (max_int64 - 1) = Limited max_int64 /\
+  list_limit 4611686018427387904 = Limited 4611686018427387905 /\ list_limit (-1) = Unlimited /\ list_limit 0 = Unlimited /\
+  list_response_ok 2 2 true = true /\ list_response_ok 2 3 false = false /\ list_response_ok max_int64 5 true = false.
+Proof. vm_compute. repeat split; reflexivity. Qed.
 Example C20_handlers_inhabited :
   handle (BUpdate true [47] [118] 5) = HRun 1 /\ handle (BUpdate false [] [] 0) = HReject /\
   handle (ETxn [{| c_target := 2; c_result := 0; c_modrev := (-5)%Z; c_key := [47] |}] [OpPut false false false] [OpRange]) = HRun 1.
